@@ -2,9 +2,11 @@
 Shared by C11 / C12: generation of whole messages (through the coder pipeline), byte streams built from
 them, the implementation observation of `generate_bufr_message` and the model request (`scan`).
 """
+import contextlib
 import itertools
 import os
 import signal
+import threading
 
 from harness import core, tables_io
 from harness import objs
@@ -163,28 +165,51 @@ def make_filter(rng, msgs):
 
 
 # ---------------------------------------------------------------------------------------------
-class Timeout(Exception):
-    pass
+class Timeout(BaseException):
+    """raised by the alarm of `time_limit` (a BaseException: no `except Exception` of the code under test may swallow it)"""
 
 
-def impl_scan(s, info_only=False, continue_on_error=False, filter_expr=None, ignore_expect=False, limit=None):
+@contextlib.contextmanager
+def time_limit(seconds):
+    """the body is abandoned with Timeout after `seconds` of wall time (main thread only; no-op elsewhere or for None)"""
+    if not seconds or threading.current_thread() is not threading.main_thread():
+        yield
+        return
+
+    def on_alarm(signum, frame):
+        raise Timeout()
+    old = signal.signal(signal.SIGALRM, on_alarm)
+    signal.setitimer(signal.ITIMER_REAL, seconds)
+    try:
+        yield
+    finally:
+        signal.setitimer(signal.ITIMER_REAL, 0)
+        signal.signal(signal.SIGALRM, old)
+
+
+def impl_scan(s, info_only=False, continue_on_error=False, filter_expr=None, ignore_expect=False, limit=None, digests=None,
+              seconds=None):
     """-> ([serialized_bytes...], outcome) with outcome 'done' | 'err:...' ; never hangs (limit on the
-    number of items; the caller passes one more than it expects)"""
+    number of items; the caller passes one more than it expects).  digests: None or (list to fill, function of the
+    message): one entry per yielded item; seconds: wall-time limit, outcome 'timeout' when it is exceeded"""
     from pybufrkit.decoder import Decoder, generate_bufr_message
-    import contextlib
     import io
     items = []
     outcome = 'done'
     err = io.StringIO()
     try:
-        with contextlib.redirect_stderr(err):
+        with contextlib.redirect_stderr(err), time_limit(seconds):
             gen = generate_bufr_message(objs.decoder(), s, info_only=info_only, continue_on_error=continue_on_error,
                                         filter_expr=filter_expr, wire_template_data=False,
                                         ignore_value_expectation=ignore_expect)
             for m in (itertools.islice(gen, limit) if limit else gen):
                 items.append(m.serialized_bytes)
+                if digests is not None:
+                    digests[0].append(digests[1](m))
             if limit and len(items) >= limit:
                 outcome = 'limit'
+    except Timeout:
+        outcome = 'timeout'
     except Exception as e:  # noqa
         outcome = core.err_tag(e)
         LAST_EXC.clear()
@@ -203,15 +228,21 @@ def exc_detail(e):
         e = e.__cause__             # a StopIteration that reached the generator boundary
         name = 'StopIteration'
     where = None
+    names = []
     for fr in traceback.extract_tb(e.__traceback__):
         if os.sep + 'pybufrkit' + os.sep in fr.filename:
             where = '%s:%s' % (os.path.basename(fr.filename)[:-3], fr.name)
-    if where in ('decoder:process_section', 'decoder:process') or (where or '').startswith('bufr:'):
+            names.append(where)
+    # the layer is the OUTERMOST part of the decoder the exception passed through (not where it was raised: a bit
+    # reader frame is innermost for the section layer and for the template walk alike)
+    if 'decoder:process_template_data' in names:
+        layer = 'template-walk'
+    elif 'decoder:process_section' in names or 'decoder:process' in names or (where or '').startswith('bufr:'):
         layer = 'sections'
-    elif where and where.startswith('decoder:generate_bufr_message'):
+    elif any(n.startswith('decoder:generate_bufr_message') for n in names):
         layer = 'scan'
     else:
-        layer = 'template-walk'
+        layer = 'template-walk' if names else 'outside'
     return {'exc': name, 'where': where, 'layer': layer}
 
 
